@@ -150,6 +150,13 @@ func (l *Lifter) brBlock(stmts []ast.Stmt, cur *rcur, counts map[string]*countVa
 			continue
 		}
 		if d, ok := l.accStmt(s, "at"); ok {
+			if d.T["wirelen(at)"] != 0 {
+				// skipping a nested record by the length it declares on the wire;
+				// the callee that just succeeded proved those bytes exist
+				l.WireAdv++
+				e := cur.pos().Add(d)
+				cur.avail = &e
+			}
 			cur.at = cur.at.Add(d)
 			continue
 		}
@@ -378,6 +385,28 @@ func (l *Lifter) brAssign(x *ast.AssignStmt, rest []ast.Stmt, cur *rcur, counts 
 				}
 				cur.base = cur.base.Add(Const(n))
 				return nil, 0, true
+			}
+		}
+	}
+	// buf = buf[:n]   (bound the record by its declared length)
+	if len(x.Lhs) == 1 && len(x.Rhs) == 1 && x.Tok == token.ASSIGN && l.isIdent(x.Lhs[0], "buf") {
+		if se, ok := unparen(x.Rhs[0]).(*ast.SliceExpr); ok && l.isIdent(se.X, "buf") && se.Low == nil && se.High != nil {
+			if n, ok := l.lin(se.High); ok {
+				if l.Safe {
+					if cur.avail == nil || !cur.avail.Sub(cur.base.Add(n)).NonNeg() {
+						l.fail("check", "prefix", pos, "buf = buf[:%s] keeps %s bytes that no preceding length check proves present", n, n)
+					}
+				}
+				return nil, 0, true
+			}
+		}
+	}
+	// bodyLen := int(iohelp.ReadUint32Bytes(buf[at:]))   (length prefix, kept)
+	if len(x.Lhs) == 1 && len(x.Rhs) == 1 && x.Tok == token.DEFINE {
+		if id, ok := x.Lhs[0].(*ast.Ident); ok && !strings.HasPrefix(id.Name, "ln") {
+			if name, off, conv, _, ok := l.readBytesCall(x.Rhs[0]); ok && name == "ReadUint32Bytes" && (conv == "int" || conv == "") && cur.at.IsZero() && cur.base.IsZero() {
+				l.needRead(cur, off, Const(4), "length-prefix read", "prefix", pos)
+				return []Item{{Kind: KPrefix, Tag: -1, Pos: pos}}, 0, true
 			}
 		}
 	}
